@@ -155,6 +155,7 @@ def main(argv=None) -> int:
     violations = []
     refusal_stages: dict = {}
     vclasses: dict = {}
+    excluded_by: dict = {}
     crash_samples: list = []
     odd_refusals: list = []
     faultfree = {"runs": 0, "violations": 0}
@@ -176,6 +177,9 @@ def main(argv=None) -> int:
             harness_trouble.append(f"run {ans['id']}: {st} {r.get('error', '')} {r.get('trace', '')[-600:]}")
             return
         stats[st] = stats.get(st, 0) + 1
+        if st == "excluded":
+            eb = str(r.get("excluded_by"))
+            excluded_by[eb] = excluded_by.get(eb, 0) + 1
         stats["ticks"] += r.get("ticks", 0)
         stats["compiles"] += r.get("compiles", 0)
         stats["compared"] += r.get("compared", 0)
@@ -318,6 +322,7 @@ def main(argv=None) -> int:
             "runs_per_hour": int(stats["runs"] / max(wall, 1e-6) * 3600),
             "known_findings_reproduced": known_lines,
             "excluded_patterns_active": exclude,
+            "excluded_runs_by_pattern": excluded_by,
             "underpowered": underpowered,
             "real_components": getattr(mod, "REAL", engine_real()),
             "stub_components": getattr(mod, "STUB", engine_stub()),
@@ -338,6 +343,8 @@ def main(argv=None) -> int:
           f"distinct={nontrivial} ticks={stats['ticks']} wall={wall:.1f}s")
     print("fired:", json.dumps(fired, sort_keys=True))
     print("probes:", json.dumps(probes, sort_keys=True))
+    if excluded_by:
+        print("excluded by:", json.dumps(excluded_by, sort_keys=True))
     if vclasses:
         print("violation classes:", json.dumps(vclasses, sort_keys=True))
     if refusal_stages:
